@@ -49,7 +49,28 @@ PickAllowed(cfg, h, o) ==
 
 \* per-operation client / context take precedence over the transport-wide ones
 UsedClient(opClient) == IF opClient THEN "op" ELSE "rt"
-UsedCtx(opCtx, rtCtx) == IF opCtx THEN "op" ELSE IF rtCtx THEN "rt" ELSE "background"
+
+\* The caller's context.  op  : nil | background (context.Background() itself) | todo | value (derived, carries the
+\*                              operation marker) | cancelled (derived from "value", already cancelled)
+\*                        rt  : nil | default (context.Background(), as New leaves it) | value | cancelled | deadline
+\*                              (every non-default runtime context carries the runtime marker; "deadline" = a short one)
+OpCtxKinds == {"nil", "background", "todo", "value", "cancelled"}
+RtCtxKinds == {"nil", "default", "value", "cancelled", "deadline"}
+
+\* faithful: switch { case operation.Context != nil; case r.Context != nil; default: context.Background() }
+CodeCtx(op, rt) == IF op # "nil" THEN "op" ELSE IF rt # "nil" THEN "rt" ELSE "none"
+
+\* what the request handed to the RoundTripper shows of the context `chosen`
+CtxSeen(chosen, op, rt) ==
+  [ op_value |-> chosen = "op" /\ op \in {"value", "cancelled"},
+    rt_value |-> chosen = "rt" /\ rt \in {"value", "cancelled", "deadline"},
+    err      |-> (chosen = "op" /\ op = "cancelled") \/ (chosen = "rt" /\ rt = "cancelled"),
+    short    |-> chosen = "rt" /\ rt = "deadline" ]
+
+\* declarative: the request carries the operation's context whenever it is non-nil - whatever that context is, also
+\* context.Background() itself - and the runtime's only when the operation has none
+CtxAllowed(op, rt, seen) ==
+  seen = CtxSeen(IF op # "nil" THEN "op" ELSE IF rt # "nil" THEN "rt" ELSE "none", op, rt)
 
 (***************************************************************************)
 (* Part B.  N callers on a fresh Runtime.                                  *)
